@@ -134,6 +134,11 @@ class Summ:
                         normal_reaches = True
             if not normal_reaches:
                 continue  # bb lies on an early-exit path of this loop: its path condition already says which one
+            early = [(x, t, lab) for x in sorted(blocks) for (t, lab) in body.succ[x] if t not in blocks and not (lab is not None and lab[0] in trivial)]
+            if early and all(body.reaches_acyclic(t, bb) for (_x, t, _l) in early):
+                # every way out of the loop (exhaustion and each `break`) leads here: the loop puts no condition on reaching bb; what differs
+                # between the ways out is carried by the values they set (a flag: see flag_cond)
+                continue
             for x in sorted(blocks):
                 for (t, lab) in body.succ[x]:
                     if t in blocks:
@@ -240,6 +245,21 @@ class Summ:
         for bb in trues:
             for h in body.loops_of(bb):
                 inner.add(h)
+            # a block reached by leaving a loop early (`break` after setting the flag, the hit branch of any()) belongs to that loop's iteration
+            frontier, seen_ = [bb], set()
+            for _depth in range(8):
+                nxt_ = []
+                for x_ in frontier:
+                    for (p_, _l) in body.pred[x_]:
+                        if p_ in seen_:
+                            continue
+                        seen_.add(p_)
+                        hs = [h for h in body.loops_of(p_) if bb not in body.loops[h]]
+                        if hs:
+                            inner.update(hs)
+                        else:
+                            nxt_.append(p_)  # still on the way out (blocks between the loop and bb)
+                frontier = nxt_
         r = self.tag_elems(r, ("tag-flag", body.path, local), only_loops=(body, inner, trues))
         self._flag[key] = r
         return r
